@@ -298,7 +298,7 @@ Proof.
   rewrite (wrap_i64_small (2 ^ (30 - level))) by (change (2 ^ 63) with 9223372036854775808; lia).
   rewrite (wrap_i64_small (- 2 ^ (30 - level))) by (change (2 ^ 63) with 9223372036854775808; lia).
   rewrite !(wrap_i64_small (i + _)), !(wrap_i64_small (i - _)), !(wrap_i64_small (j + _)), !(wrap_i64_small (j - _))
-    by (change (2 ^ 63) with 9223372036854775808; lia).
+    by (change (2 ^ 63) with 9223372036854775808; clear - HP HPle Ri Rj; lia).
   assert (Ii : (if negb (Z.land i (2 ^ (30 - (level + 1))) =? 0)
                then (2 ^ (30 - level), i + 2 ^ (30 - level) <? 1073741824)
                else (- 2 ^ (30 - level), 0 <=? i - 2 ^ (30 - level))) = (di * 2 ^ (30 - level), true)).
